@@ -313,17 +313,13 @@ func (w *World) encoderTagSets() map[string]ISet {
 			}
 		}
 		// chunked encoders: the first octet of a non-final chunk is emitted on the looping path too
-		for _, fm := range w.bufForms(c.Enc) {
-			if len(fm.Octets) == 0 {
-				continue
-			}
-			f := w.flow(c.Enc)
-			s, _ := f.ValueAt(fm.Octets[0], fm.Block)
-			if v, ok := w.constOf(fm.Octets[0]); ok {
-				s = single(v)
-			}
-			if s != nil && !s.Equal(single('N')) {
-				out[name] = out[name].Union(s)
+		open := false
+		for _, fm := range ei.forms {
+			open = open || fm.Open
+		}
+		if open {
+			if s := w.lenEncFirstOctets(c.Enc); s != nil {
+				out[name] = out[name].Union(s.Minus(single('N')))
 			}
 		}
 	}
